@@ -19,10 +19,13 @@
 (*               "init"       constructor: Default rule (signers, pols),    *)
 (*               "add_rule", "rm_rule", "upd_name", "upd_vu",               *)
 (*               "add_signer", "rm_signer", "add_policy", "rm_policy",      *)
-(*               "check"}     __check_auth with signatures for the signers  *)
+(*               "check"      __check_auth with signatures for the signers  *)
 (*                            `sigs` (those in `bad` carry an invalid       *)
 (*                            signature / no authorization) and the         *)
-(*                            context batch `ctxs`                          *)
+(*                            context batch `ctxs`,                         *)
+(*               "e2e"}       the same through the host: a call of ctxs[1]  *)
+(*                            (which calls ctxs[2]) requiring the account's *)
+(*                            authorization, with a genuine entry           *)
 (*    context types: "D" Default, "c1".. CallContract(c1).., "w1"..       *)
 (*    CreateContract(w1)..; contexts: "c1".. a call of c1.., "w1".. a       *)
 (*    creation from wasm w1 without, "v1".. with constructor arguments.     *)
@@ -101,11 +104,15 @@ Prec(g, i, j) == LET si == g.rules[i].ct # "D"  sj == g.rules[j].ct # "D" IN
 Chosen(g, now, c, sup) == LET S == SatIds(g, now, c, sup) IN
                           CHOOSE i \in S : \A j \in S \ {i} : Prec(g, i, j)
 
+\* "check" enters __check_auth directly with crafted payload and contexts; "e2e" is an invocation requiring the
+\* account's authorization, authorized by a genuine entry (the host derives payload and contexts)
+IsCheck(o) == o.op \in {"check", "e2e"}
+
 \* what the property derives for a check event, computed once per event:
 \*   ch[j]  the rule the property designates for context j (-1: no live rule of the type, or Default, is satisfied)
 \*   cov    every context has one
 Derived(g, ev) ==
-  IF ev.op.op # "check" THEN [cov |-> FALSE, ch |-> <<>>]
+  IF ~IsCheck(ev.op) THEN [cov |-> FALSE, ch |-> <<>>]
   ELSE LET ch == [j \in DOMAIN ev.op.ctxs |->
                      IF SatIds(g, ev.now, ev.op.ctxs[j], ev.op.sigs) = {} THEN -1
                      ELSE Chosen(g, ev.now, ev.op.ctxs[j], ev.op.sigs)]
@@ -207,7 +214,7 @@ PropOf(m) == IF m \in {"C20_rules_query", "C20_rules_refuse", "C20_rules_capacit
 
 \* every monitor is  Ante => Cons ; d = Derived(g, ev)
 AnteD(m, g, ev, d) ==
-  LET o == ev.op  ok == ev.res = "ok"  chk == o.op = "check" IN
+  LET o == ev.op  ok == ev.res = "ok"  chk == IsCheck(o) IN
   CASE m = "C03_sound"          -> chk /\ ok
     [] m = "C03_precedence"     -> chk /\ ok /\ ev.log.enf # <<>> /\ d.cov
     [] m = "C03_signers_scope"  -> chk /\ (ev.log.can # {} \/ ev.log.enf # <<>>)
